@@ -1,4 +1,12 @@
-"""C09 Algebraic law checkers report exactly the laws that hold (engine E3 Algebra)."""
+"""C09 Algebraic law checkers report exactly the laws that hold (engine E3 Algebra).
+
+Standard pipeline (vlib.standard_check) on the dev-profile harness, preceded by a *release
+probe*: the same harness crate built with `--release` (no integer overflow checks) runs the
+semiring cases again, compared with the release-profile model (`CSrRel`, wrapping `a + b` in
+Cost::mul).  Probe verdicts use the same logic: bit 1 => known finding or VIOLATION."""
+import json
+import os
+
 from tools import algebra, vlib
 
 # Coq's Print Assumptions lists the kernel's primitive float / int63 operations (used only by
@@ -11,23 +19,27 @@ PRIMS = ["float", "PrimFloat.float", "mul", "PrimFloat.mul", "ltb", "PrimFloat.l
          "PrimInt63.int", "PrimInt63.lsr", "PrimInt63.lsl", "PrimInt63.land", "PrimInt63.lor",
          "PrimInt63.eqb", "PrimInt63.ltb", "PrimInt63.leb", "PrimInt63.sub", "PrimInt63.add",
          "PrimInt63.mul", "PrimInt63.compare"]
+# Coq.Floats.FloatAxioms (standard library): specification of the primitive comparisons by
+# SpecFloat; used only by C09_fuzzy_semiring.
+FLOAT_AXIOMS = ["ltb_spec", "leb_spec", "eqb_spec", "FloatAxioms.ltb_spec", "FloatAxioms.leb_spec", "FloatAxioms.eqb_spec"]
 
 
 class C09(vlib.Spec):
     model_vo = ["theories/Algebra/Model.vo"]
     props_vo = "theories/Props/C09.vo"
     theorems = algebra.THEOREMS
-    allowed_axioms = PRIMS
+    allowed_axioms = PRIMS + FLOAT_AXIOMS
     crate, group, binary = "h_algebra", "light", "h_algebra"
     imports = "From HV Require Import Algebra.Model.\nFrom Coq Require Import List NArith Floats.\nImport ListNotations."
     trusted_base = ["coqc 8.16.1 kernel (vm_compute for case evaluation; primitive floats for ConfidenceScore/FuzzyLogic)",
+                    "Coq.Floats.FloatAxioms ltb_spec/leb_spec/eqb_spec (C09_fuzzy_semiring only)",
                     "hand-written Gallina model coq/theories/Algebra/Model.v of lattices/src/algebra.rs, "
                     "test.rs::cartesian_power and semiring_application.rs",
                     "correspondence harness harness/h_algebra + tools/algebra.py (JSON -> Gallina printers)",
                     "hook commit checks/hook_commits/C09_semiring_accessors.txt (raw accessors, cfg(hydro_verif))"]
     assumptions = ["model validated against the lattices crate only on the generated cases",
                    "operations are total tables over {0..n-1}, n <= 5; items lists of length <= 7 (harness dispatches &[S; N] for N <= 7)",
-                   "harness built with the dev profile: `a + b` in Cost::mul panics on u32 overflow (it wraps in release builds)",
+                   "dev-profile harness: `a + b` in Cost::mul panics on u32 overflow; the release probe runs the same crate built with --release, where it wraps (recorded finding)",
                    "-0.0 and NaN are not generated as semiring values (f64::max/min unspecified on signed zeros)"]
     rule = ("operation tables over carriers {0..n-1}: exhaustive for n=2 (and n=3 for the single-operation checkers in "
             "the thorough tier), library structures (Z_n, max/min, projections, xor/and/or, GF(4)) with isomorphic "
@@ -55,10 +67,82 @@ class C09(vlib.Spec):
         return algebra.nontrivial(case, res)
 
     def distribution(self, cases, results):
-        return algebra.distribution(cases, results)
+        d = algebra.distribution(cases, results)
+        d["release_probe"] = getattr(self, "release_summary", None)
+        return d
+
+
+def release_probe(ctx, spec, cases=None):
+    """run semiring cases on the release build of the harness; verdicts into ctx"""
+    summ = {"built": False, "cases": 0, "agree_and_hold": 0, "property_failures": 0,
+            "correspondence_disagreements": 0, "known": []}
+    spec.release_summary = summ
+    ok, out = vlib.coq_make(spec.model_vo)
+    if not ok:
+        return  # standard_check reports the framework error
+    cdir = os.path.join(vlib.ROOT, "harness", spec.crate)
+    for f in ("Cargo.lock", "rust-toolchain.toml"):
+        if not os.path.exists(os.path.join(cdir, f)):
+            import shutil
+            shutil.copy(os.path.join(vlib.REPO, f), os.path.join(cdir, f))
+    ctx.log("building harness %s (release profile)" % spec.crate)
+    rc, out = vlib.run(["cargo", "build", "--offline", "--release"], cwd=cdir,
+                       env=vlib.cargo_env(spec.group), timeout=3600)
+    if rc != 0:
+        ctx.log("release build failed:\n" + out[-2000:])
+        return  # the dev build in standard_check reports a harness that no longer builds
+    summ["built"] = True
+    binary = os.path.join(vlib.CACHE, "target-" + spec.group, "release", spec.binary)
+    if cases is None:
+        cases = (algebra.split_profile(algebra.corpus("C09"))[1]
+                 + algebra.gen_sr_release(ctx.rng.fork(), 40 if ctx.tier == "quick" else 400))
+    results = vlib.run_harness(ctx, binary, cases, name="release")
+    verd = vlib.coq_eval(ctx, spec.imports, [algebra.chk_term(c, r) for c, r in zip(cases, results)])
+    known = vlib.load_known(ctx.prop)
+    summ["cases"] = len(cases)
+    reported = 0
+    for c, r, v in zip(cases, results, verd):
+        if v == 0:
+            summ["agree_and_hold"] += 1
+            continue
+        if v & 2:
+            summ["property_failures"] += 1
+            key = algebra.finding_key(c, r)
+            hit = [t for k, t in known if k == key]
+            if key is not None and hit:
+                if key not in summ["known"]:
+                    summ["known"].append(key)
+                    ctx.known.append("%s (%s)" % (hit[0], key))
+                continue
+            if reported < 3:
+                reported += 1
+                path = vlib.write_replay(ctx, {"property": ctx.prop, "kind": "property-fails-on-implementation",
+                                               "profile": "release", "case": c, "impl": r, "verdict": v,
+                                               "finding_key": key})
+                ctx.violations.append((path, ""))
+        else:
+            summ["correspondence_disagreements"] += 1
+            if reported < 3:
+                reported += 1
+                path = vlib.write_replay(ctx, {"property": ctx.prop, "kind": "no-failing-input-found",
+                                               "profile": "release", "case": c, "impl": r, "verdict": v,
+                                               "correspondence": "release-profile harness output differs from the "
+                                                                 "release-profile model (CSrRel)"})
+                ctx.violations.append((path, "no-failing-input-found"))
 
 
 def main(ctx):
     spec = C09()
     spec.ctx = ctx
+    if ctx.replay:
+        payload = json.load(open(ctx.replay))
+        rc = payload["cases"] if "cases" in payload else [payload["case"]]
+        if rc and all(c.get("profile") == "release" for c in rc):
+            release_probe(ctx, spec, rc)
+            vlib.finish(ctx, spec.level, {"evaluations": len(rc), "distinct_nontrivial": len(rc),
+                                          "rule": "replay of release-profile cases", "samples": rc[:3],
+                                          "release_probe": spec.release_summary,
+                                          "explanation": "replay only"}, spec.assumptions)
+    else:
+        release_probe(ctx, spec)
     vlib.standard_check(ctx, spec)
